@@ -24,6 +24,7 @@ def take_step_summary(vc):
 
 class CountSteps(LoopSpec):
     """a loop whose body takes one step per iteration"""
+    structural = True
 
     def __init__(self, vc, name):
         super().__init__(vc)
@@ -42,6 +43,7 @@ class CountSteps(LoopSpec):
 
 class Groups(LoopSpec):
     """outer progress loop of advance(): after j groups, j*(m // n_groups) steps were taken"""
+    structural = True
 
     def __init__(self, vc, name, m, n_groups):
         super().__init__(vc)
@@ -137,13 +139,13 @@ from pyvc.vc import bounded
 import numpy as np
 
 
-@bounded("C15", "advance_native", native_runs=24)
+@bounded("C15", "advance_native", native_runs=60)
 def advance_native(vc):
     from contracts.common import Posterior, KINDS, make_sampler, stored_points, quiet
     kind = vc.choice("sampler", ["gibbs", "pca", "hmc", "ensemble"])
     d = vc.int("d", lo=1, hi=3)
-    m = vc.choice("m", [0, 1, 7, 99, 100, 101, 150])
-    m2 = vc.choice("m2", [0, 1, 3, 100])
+    m = vc.choice("m", [0, 1, 7, 99, 100, 101, 150] + list(range(2, 260, 3)))
+    m2 = vc.choice("m2", [0, 1, 3, 100, 29, 57, 113])
     seed = vc.int("seed", lo=0, hi=10 ** 6)
     rng = np.random.default_rng(seed)
     post = Posterior(KINDS[seed % 3], d, rng)
